@@ -13,6 +13,7 @@ import (
 	"verif/sim/kernel"
 	"verif/sim/powsim"
 	"verif/sim/proto"
+	"verif/sim/slipsim"
 )
 
 func emit(prefix string, v any) {
@@ -99,6 +100,14 @@ func generate(t *testing.T, prop, tier string, seed uint64, verbose bool, journa
 		}
 		return powsim.Run(t, cfg, nil, false, journal)
 	}
+	if prop == "C02" {
+		cfg := slipsim.Gen(seed, tier)
+		if verbose {
+			b, _ := json.Marshal(cfg)
+			os.Stdout.WriteString("CONFIG " + string(b) + "\n")
+		}
+		return slipsim.Run(cfg)
+	}
 	t.Fatalf("unknown property %q", prop)
 	return proto.End{}
 }
@@ -111,6 +120,13 @@ func replay(t *testing.T, rf *proto.ReplayFile, journal func(step, who int, site
 			t.Fatal(err)
 		}
 		return powsim.Run(t, &cfg, rf.Choices, true, journal)
+	}
+	if rf.Engine == "slipsim" {
+		var cfg slipsim.Config
+		if err := json.Unmarshal(rf.Config, &cfg); err != nil {
+			t.Fatal(err)
+		}
+		return slipsim.Run(&cfg)
 	}
 	t.Fatalf("unknown engine %q", rf.Engine)
 	return proto.End{}
